@@ -45,9 +45,9 @@ func runConcurrentGets(c Case) (msg string, nontrivial bool) {
 	defer f.cleanup()
 	ridFor := func(id string) string {
 		if c.Cfg.Trans == "custom" {
-			return "svc.r.x" + id + ".y"
+			return ridBase(c.Cfg) + "x" + id + ".y"
 		}
-		return "svc.r." + id
+		return ridBase(c.Cfg) + id
 	}
 	var rids []string
 	seen := map[string]bool{}
@@ -91,6 +91,9 @@ func runConcurrentGets(c Case) (msg string, nontrivial bool) {
 	var steps []step
 	model := map[string]string{}
 	for i, m := range c.Muts {
+		if m.K == "init" {
+			m.K = "create" // (Init seeding is exercised by the sequential test)
+		}
 		_, existed := model[m.ID]
 		from := f.conn.LogLen()
 		tx := f.st.Write(storeID(f.cfg, m.ID))
